@@ -7,6 +7,8 @@ depends only on the expression, the point and the earlier points of the same gro
 types or other groups the compiled expression saw before.
 -/
 import Kap.Proofs.C04
+import Kap.Proofs.C04Cache
+import Kap.Model.C04Legacy
 import Kap.Gen.C04
 namespace Kap.Props.C04
 open Kap.C04
@@ -56,5 +58,90 @@ theorem table_no_trap {F : Type} (ops : FOps F) (reMatch : String → String →
     ∀ e ∈ Gen.table, ∀ vl vr : Value F, vl.ty = e.lt → vr.ty = e.rt → e.compute ops reMatch vl vr ≠ .trap := by
   intro e he vl vr hl hr
   exact (canon_sound ops reMatch e (List.all_eq_true.mp table_canonical e he) vl vr hl hr).2
+
+/-! ### The specialisation cache is transparent -/
+
+/-- **cache_transparent.** For every expression, scope, requested type, function state and EVERY cache
+satisfying `Inv` (nodes with a dynamic operand may hold arbitrary, stale types and an arbitrary or no
+function; nodes with constant operands hold the function chosen at construction), the evaluator `evalC`
+— which reads and writes the cache as the Go code does — returns the outcome and the function state of the
+cache-erased evaluator `evalN`, and leaves a cache satisfying `Inv`. Holds for any table, signatures, float
+operations and oracles. -/
+theorem cache_transparent {F : Type} (ctx : Ctx F) (σ : Scope F) (e : Expr F) (w : Ty) (c : Cache)
+    (st : FnState F) (h : Inv ctx e c) :
+    (evalC ctx σ w e c st).1 = (evalN ctx σ w e st).1 ∧
+    (evalC ctx σ w e c st).2.2 = (evalN ctx σ w e st).2 ∧
+    Inv ctx e (evalC ctx σ w e c st).2.1 :=
+  evalC_eq_evalN ctx σ e w c st h
+
+/-- The cache after `NewExpression` and after ANY sequence of evaluations (any entry path, any scope, the
+function state of any group) satisfies `Inv`. -/
+theorem reachable_cache_inv {F : Type} (ctx : Ctx F) (e : Expr F) (pre : List (Path × Scope F × FnState F)) :
+    Inv ctx e (reach ctx e pre) :=
+  reach_inv ctx e pre
+
+/-- **history_independent.** What a point answers through any entry path (`Eval`, `Type`+`EvalBool`, direct
+`EvalX`, `Type`) and the function state it leaves depend on the expression, the scope and the function
+state of its own group only: two arbitrary pre-histories of the SAME compiled expression — other field
+types, ill-typed points, other groups (`CopyReset` copies share the cache), other entry paths — give the same
+answer. No bound on the histories or on the expression. -/
+theorem history_independent {F : Type} (ctx : Ctx F) (e : Expr F)
+    (pre₁ pre₂ : List (Path × Scope F × FnState F)) (p : Path) (σ : Scope F) (st : FnState F) :
+    (runPath ctx σ p e (reach ctx e pre₁) st).1 = (runPath ctx σ p e (reach ctx e pre₂) st).1 ∧
+    (runPath ctx σ p e (reach ctx e pre₁) st).2.2 = (runPath ctx σ p e (reach ctx e pre₂) st).2.2 := by
+  obtain ⟨a1, a2, _⟩ := runPath_eq ctx σ p e _ st (reach_inv ctx e pre₁)
+  obtain ⟨b1, b2, _⟩ := runPath_eq ctx σ p e _ st (reach_inv ctx e pre₂)
+  exact ⟨a1.trans b1.symm, a2.trans b2.symm⟩
+
+/-- non-vacuity: `Inv` admits a stale cache on a dynamic node (`"a" + 1` specialised to float + string,
+which is not even a key) … -/
+example {F : Type} (ctx : Ctx F) :
+    Inv ctx (.bin .plus (.ref "a") (.lit (.int 1))) (.node .float .string none .leaf .leaf .leaf) := by
+  simp [Inv, isDyn]
+
+/-! ### Counterexamples: the evaluator of snapshot ef0888e (model `Kap.C04.Legacy`) is NOT transparent -/
+
+open Kap.C04.Legacy in
+/-- `"a" + 1` asked directly: after ONE point with a float `a` the node holds no function, and the
+well-typed point `a = 2` is an error — a fresh node answers 3 (repaired by 043a5af;
+corpus/C04/poison-direct-evalint.ops). -/
+theorem legacy_poisoned_by_one_point :
+    let l := Leaf.ref "a"; let r := Leaf.lit (.int 1)
+    let c0 := initCache Gen.table .plus l r
+    let c1 := (direct Gen.table [("a", .float 1)] .plus l r c0 0).2.1
+    out (direct Gen.table [("a", .int 2)] .plus l r c0 0) = some (some (.int 3)) ∧
+    out (direct Gen.table [("a", .int 2)] .plus l r c1 0) = some none ∧
+    out (viaType Gen.table [("a", .int 2)] .plus l r c1 0) = some none := by decide
+
+open Kap.C04.Legacy in
+/-- `!"x" AND TRUE` (constant operand types): one point with an integer `x` destroys the specialisation;
+`x = false` is an error for ever, a fresh node answers TRUE (repaired by 325c5ee;
+corpus/C04/poison-constant-node.ops). -/
+theorem legacy_constant_node_poisoned :
+    let l := Leaf.notRef "x"; let r := Leaf.lit (.bool true)
+    let c0 := initCache Gen.table .and l r
+    let c1 := (direct Gen.table [("x", .int 1)] .and l r c0 0).2.1
+    out (direct Gen.table [("x", .bool false)] .and l r c0 0) = some (some (.bool true)) ∧
+    out (direct Gen.table [("x", .bool false)] .and l r c1 0) = some none := by decide
+
+open Kap.C04.Legacy in
+/-- `count() * "a"` through `Eval`: `a` an int at the first point, a duration at the second. The retry after
+the right operand's guard failure evaluates `count()` again: 3·10s instead of 2·10s (repaired by 043a5af;
+corpus/C04/stateful-left-evaluated-twice.ops). -/
+theorem legacy_retry_steps_twice :
+    let l := Leaf.count; let r := Leaf.ref "a"
+    let c0 := initCache Gen.table .mult l r
+    let s1 := viaType Gen.table [("a", .int 10)] .mult l r c0 0
+    out s1 = some (some (.int 10)) ∧
+    out (viaType Gen.table [("a", .dur 10)] .mult l r s1.2.1 s1.2.2) = some (some (.dur 30)) ∧
+    out (viaType Gen.table [("a", .dur 10)] .mult l r c0 1) = some (some (.dur 20)) := by decide
+
+open Kap.C04.Legacy in
+/-- `-'a' == 'b'`: the guard failure reports the type the node already has, the retry changes nothing and
+recurses: 40 nested calls later the node is in the state it started in (Go: fatal stack overflow; repaired
+by 325c5ee; corpus/C04/unary-minus-on-string-recursion.ops). -/
+theorem legacy_retry_never_terminates :
+    let l := Leaf.negLit (.str "a"); let r := Leaf.lit (.str "b")
+    out (direct Gen.table [] .eq l r (initCache Gen.table .eq l r) 0) = none := by decide
 
 end Kap.Props.C04
